@@ -142,6 +142,27 @@ pub fn gen_line(r: &mut Rng) -> String {
                 let unit = 10u128.pow((od - ad) as u32);       // one ask unit, nominally, in offer units
                 offer = match r.below(6) { 0 => unit - 1, 1 => unit / 2, 2 => unit / 4, 3 => unit, 4 => unit + 1, _ => unit * (1 + r.below(5) as u128) - 1 };
             }
+            // directed: a pool of THREE or four assets in which an asset that is NOT traded has more decimals than both traded
+            // ones (6 / 6 / 18) and is the scarce one, with a sub-unit tail in the coarser precision: the invariant must be
+            // resolved at the pool's highest precision, not at the traded pair's
+            if ai != oi && n >= 3 && r.chance(1, 5) {
+                let hi = (0..n).find(|k| *k != oi && *k != ai).unwrap();
+                let (lo, hd) = [(6u8, 18u8), (6, 12), (8, 18)][r.below(3) as usize];
+                for k in 0..n { p.asset_decimals[k] = if k == hi { hd } else { lo }; }
+                let whole = 100_000 + r.below(2_000_000) as u128;
+                let ask_mult = [5u128, 10, 50][r.below(3) as usize];
+                let scarce_div = [20u128, 50, 500, 5000][r.below(4) as usize];
+                for k in 0..n {
+                    let dec = p.asset_decimals[k] as u32;
+                    let tokens = if k == ai { whole * ask_mult } else if k == hi { (whole / scarce_div).max(1) } else { whole };
+                    p.assets[k].amount = Uint128::new(tokens * 10u128.pow(dec));
+                }
+                // a tail just below one unit of the coarser precision on the scarce asset
+                let tail = 10u128.pow((hd - lo) as u32) - 1 - r.below(3) as u128;
+                p.assets[hi].amount += Uint128::new(tail);
+                if let PoolType::StableSwap { .. } = p.pool_type { p.pool_type = PoolType::StableSwap { amp: [10u64, 85, 100, 1000][r.below(4) as usize] }; }
+                offer = [1_000u128, 1_000_000, 50_000_000][r.below(3) as usize] + r.below(1000) as u128;
+            }
             format!("swap {} {} {} {}", pool_str(&p), p.assets[oi].denom, offer, p.assets[ai].denom)
         }
         13 | 14 => {
